@@ -15,13 +15,16 @@ func propC07() Property {
 	return Property{
 		ID: "C07",
 		Explanation: "R1 (guarded reset): for every call of MessageStore.Reset on the session's store and every chain of static callers up to a root (depth <= 8), the guards along the chain contain a configured or negotiated reason: ResetOnLogon / ResetOnLogout / ResetOnDisconnect true, ResetSeqNumFlag(141)=Y on the message being sent or received, the store's creation time being outside the current session window, or the chain starts at the exported ResetSession. The same holds for SetNextSenderMsgSeqNum (operator API only). " +
-			"R2 (forward-only SequenceReset, per-path traces): NewSeqNo > expected → set; NewSeqNo < expected → reject and no set; equal → nothing. R3 (no double reset): the reset for a received flag is guarded by sentReset = false; sentReset is set true only right after the reset performed for an outgoing Logon, and cleared on connect and after Logon handling. R4 (echo): the reply Logon's reset flag originates from the received ResetSeqNumFlag(141); the flag is only put on a Logon when the argument says so; shouldSendReset requires FIX.4.1+ and both counters at 1.",
+			"R2 (forward-only SequenceReset, per-path traces): NewSeqNo > expected → set; NewSeqNo < expected → reject and no set; equal → nothing. R3 (no double reset): the reset for a received flag is guarded by sentReset = false; sentReset is set true only right after the reset performed for an outgoing Logon, and cleared on connect and after Logon handling. R4 (echo): the reply Logon's reset flag originates from the received ResetSeqNumFlag(141); the flag is only put on a Logon when the argument says so; shouldSendReset requires FIX.4.1+ and both counters at 1. R5 (shared with C11): every constant-tag access addresses the section the parser files the tag in (GapFillFlag read from the wrong section would turn every gap fill into a reset). R6 (no bypass): where a function resets under a ResetOn* option, the option test dominates every return that is not a delegation — no message-dependent early exit ends the exchange before the configured reset. R7: ResetSeqNumFlag(141) of an outgoing Logon is inspected after the application's ToAdmin callback (the application may set it there) and no callback follows the inspection.",
 		NotDecided: "counter values over sequences of events; that both sides end up at the same numbers.",
 		Rules: []RuleDef{
 			{ID: "C07-R1", Desc: "every store reset has a configured or negotiated reason on its caller chain", Min: 5, Run: c07R1},
 			{ID: "C07-R2", Desc: "SequenceReset moves the expected number forward only", Min: 3, Run: c07R2},
 			{ID: "C07-R3", Desc: "sentReset protocol (no double reset)", Min: 4, Run: c07R3},
 			{ID: "C07-R4", Desc: "reset flag echo and emission", Min: 3, Run: c07R4},
+			{ID: "C07-R5", Desc: "session handlers read each field from the section the parser files it in (= C11-R7)", Min: 20, Run: sectionAccessRule},
+			{ID: "C07-R6", Desc: "a configured reset is not bypassed by an earlier exit", Min: 1, Run: c07R6},
+			{ID: "C07-R7", Desc: "outgoing ResetSeqNumFlag inspected after the ToAdmin callback", Min: 1, Run: c07R7},
 		},
 	}
 }
@@ -356,4 +359,130 @@ func rejectProcessor(p *Prog) *ssa.Function {
 		return fs[0]
 	}
 	return nil
+}
+
+// C07-R6: a configured reset is not skipped. Where a function resets the store under a boolean
+// reset option (ResetOnLogout, ResetOnDisconnect, …), the test of that option dominates every
+// return of the function that is not a delegation (a return of another function's verdict,
+// e.g. the reject processor or the send-failure exit): no message-dependent early exit may end
+// the function before the option was consulted.
+func c07R6(c *Ctx) {
+	p := c.P
+	r := getRoles(p)
+	resetters := map[*ssa.Function]bool{}
+	for _, fn := range p.FuncsIn(modPath) {
+		if len(r.storeCalls(fn, "Reset")) > 0 {
+			resetters[fn] = true
+		}
+	}
+	n := 0
+	for _, fn := range p.FuncsIn(modPath) {
+		for _, cl := range Calls(fn) {
+			isReset := false
+			if _, ok := r.isStoreCall(cl.(ssa.Instruction), "Reset"); ok {
+				isReset = true
+			}
+			if cal := cl.Common().StaticCallee(); cal != nil && resetters[cal] {
+				isReset = true
+			}
+			if !isReset {
+				continue
+			}
+			// decision block: nearest dominating If whose condition is a boolean option field
+			var dec *ssa.BasicBlock
+			var optName string
+			for b := cl.Block(); b != nil; b = b.Idom() {
+				if iff, ok := b.Instrs[len(b.Instrs)-1].(*ssa.If); ok && b != cl.Block() || ok && false {
+					o := p.Origin(iff.Cond)
+					if o.Kind == "field" && strings.HasPrefix(cn(o.Field), "Reset") {
+						if bt, isB := o.Field.Type().Underlying().(*types.Basic); isB && bt.Kind() == types.Bool && b.Succs[0].Dominates(cl.Block()) {
+							dec, optName = b, cn(o.Field)
+							break
+						}
+					}
+				}
+			}
+			if dec == nil {
+				continue
+			}
+			n++
+			for _, b := range fn.Blocks {
+				ret, ok := b.Instrs[len(b.Instrs)-1].(*ssa.Return)
+				if !ok || dec.Dominates(b) {
+					continue
+				}
+				delegated := true
+				for _, res := range ret.Results {
+					o := p.Origin(res)
+					if !(o.Kind == "call" || o.Kind == "phi" && o.All(func(x *Org) bool { return x.Kind == "call" })) {
+						delegated = false
+					}
+				}
+				c.Check(delegated, FuncName(fn), p.InstrPos(ret), "reset-option-bypassed:"+optName, "returns before the "+optName+" test only delegate to another handler",
+					"the function returns under "+p.ReachCond(b).String()+" before "+optName+" is consulted: with the option set, this exit ends the exchange without the configured reset, and both counters and the stored messages survive a logout/disconnect that was configured to clear them")
+			}
+		}
+	}
+	if n == 0 {
+		c.Violation("", "-", "no-option-guarded-reset", "no reset guarded by a ResetOn* option in a state-returning function")
+	}
+}
+
+// C07-R7: the outgoing Logon's ResetSeqNumFlag is inspected after the application had its say.
+// The application may set 141=Y in ToAdmin; the send path decides from the message as it will go
+// out whether to reset and renumber, so every read of tag 141 of the outgoing message in a
+// function that also invokes ToAdmin comes after that callback, and no callback follows it.
+func c07R7(c *Ctx) {
+	p := c.P
+	t141 := p.Tag("tagResetSeqNumFlag")
+	n := 0
+	for _, fn := range p.FuncsIn(modPath) {
+		var cbs []ssa.CallInstruction
+		for _, cl := range Calls(fn) {
+			if cl.Common().IsInvoke() && (cn(cl.Common().Method) == "ToAdmin" || cn(cl.Common().Method) == "ToApp") {
+				cbs = append(cbs, cl)
+			}
+		}
+		if len(cbs) == 0 {
+			continue
+		}
+		for _, cl := range Calls(fn) {
+			cal := cl.Common().StaticCallee()
+			if cal == nil || cal.Signature.Recv() == nil || typeName(cal.Signature.Recv().Type()) != "FieldMap" || len(cl.Common().Args) < 2 {
+				continue
+			}
+			if !strings.HasPrefix(fnName(cal), "Get") && fnName(cal) != "Has" {
+				continue
+			}
+			if tag, ok := constIntOf(cl.Common().Args[1]); !ok || tag != t141 {
+				continue
+			}
+			// the message read is the one handed to the callback
+			n++
+			after := false
+			for _, cb := range cbs {
+				if _, isDefer := cb.(*ssa.Defer); isDefer {
+					continue
+				}
+				if cn(cb.Common().Method) == "ToAdmin" && InstrDominates(cb.(ssa.Instruction), cl.(ssa.Instruction)) {
+					after = true
+				}
+			}
+			later := false
+			for _, cb := range cbs {
+				if _, isDefer := cb.(*ssa.Defer); isDefer && cn(cb.Common().Method) == "ToAdmin" {
+					later = true // a deferred callback runs after everything else in the function
+					continue
+				}
+				if cn(cb.Common().Method) == "ToAdmin" && !InstrDominates(cb.(ssa.Instruction), cl.(ssa.Instruction)) && (reaches(cl.Block(), cb.Block()) && cb.Block() != cl.Block() || cb.Block() == cl.Block() && instrIndex(cb.(ssa.Instruction)) > instrIndex(cl.(ssa.Instruction))) {
+					later = true
+				}
+			}
+			c.Check(after && !later, FuncName(fn), p.InstrPos(cl.(ssa.Instruction)), "reset-flag-read-after-toadmin", "ResetSeqNumFlag(141) of the outgoing message is read after ToAdmin",
+				"ResetSeqNumFlag(141) of the outgoing message is inspected before the application's ToAdmin callback has run (or the callback runs again afterwards): a flag the application sets there goes out on the wire without the store reset and the renumbering to 1 that must accompany it")
+		}
+	}
+	if n == 0 {
+		c.Violation("", "-", "no-outgoing-reset-flag-read", "no function that invokes ToAdmin inspects ResetSeqNumFlag(141) of the outgoing message")
+	}
 }
